@@ -380,13 +380,24 @@ func CheckRec(g []Entry, r *Rec, initialCap int, complete bool) ([]Problem, Stat
 		first := evs[0]
 		i = 1
 
+		if first.Type == "Errored" {
+			// the watch failed before it could deliver the initial state (remote transports); nothing may follow
+			st.Errored = true
+
+			if len(evs) > 1 {
+				bad("event-after-errored", "%d events delivered after Errored", len(evs)-1)
+			}
+
+			return probs, st
+		}
+
 		for s := r.Lo; s <= r.Hi && s <= len(g); s++ {
 			v, ok := StateAt(g, s)[r.ID]
 
 			switch {
 			case first.Type == "Created" && ok && v.Token == first.Token && v.Ver == first.Ver:
 				candidates = append(candidates, s)
-			case first.Type == "Destroyed" && !ok && first.Tomb:
+			case first.Type == "Destroyed" && !ok: // (a remote transport rebuilds the tombstone as a plain resource)
 				candidates = append(candidates, s)
 			}
 		}
